@@ -226,12 +226,17 @@ def run_dscore_case(ctx, case, rng=None):
                   "ensrank|ranks-sum", case, lambda: {"sum": rk.sum()})
         frank_const = len(np.unique(rr)) == 1
     else:
+        # a single-member forecast is an ensemble of one: the same pairwise comparison
+        # (tied forecasts share a mid-rank)
+        rf, rr = ensrank_ref(sim)
         frank_const = len(np.unique(sim[:, 0])) == 1
+        if len(np.unique(sim[:, 0])) < n:
+            ctx.tag("dscore:m=1-with-tied-forecasts")
     if degenerate or frank_const:
         # correlation undefined: nothing is promised
         ctx.extra["dscore.degenerate-ranks"] += 1
         return
-    if m > 1 and len(np.unique(obs)) == n:
+    if len(np.unique(obs)) == n:
         # the score itself: rank correlation between the (untied) observations and the
         # Weigel-Mason ensemble ranks, mapped to [0, 1]
         orank = np.argsort(np.argsort(obs)).astype(float)
@@ -332,6 +337,20 @@ def run_pit_case(ctx, case):
                                               "want": want.tolist()})
     ctx.nontrivial("pit", obs, ens, rnd, cst, censor)
     if not rnd:
+        # the same forecasts in units where the threshold is a large number (volumes in
+        # ML, levels above a far datum): everything shifted by the same exact amount -
+        # same PIT values, same flags
+        for K in (2.0 ** 22, -2.0 ** 30, 1e7):
+            ctx.tag("pit:large-threshold")
+            ctx.api("pit")
+            pk, sk = call(m_.pit, obs + K, ens + K, random=False, cst=cst,
+                          censor=censor + K, kind=kind)
+            ctx.check("pit.shifted-threshold", same_result(np.asarray(pk, dtype=float),
+                                                           pits, 1e-12, 1e-12) and
+                      bool(np.array_equal(np.asarray(sk, dtype=bool), want)),
+                      "pit|sudo-flag|large-threshold", case,
+                      lambda: {"shift": K, "flag": np.asarray(sk).tolist(),
+                               "want": want.tolist()})
         k = n + m
         try:
             psf = call(m_.pit, obs, ens, random=False, cst=scalar_forms(cst, k),
